@@ -21,15 +21,17 @@ def run(tier, seed):
                          FaultKinds=["EIO"], MaxFaults=1)
     two = session.base(Conns=[1, 2], Fids=[1], Kinds=["Tattach", "Twalk", "Tclunk", "Trenameat", "Tunlinkat", "Disconnect"],
                        AttachNames=["", "a/b"], MaxFiles=6)
+    ren = session.base(Kinds=["Tattach", "Twalk", "Tclunk", "Trenameat", "Trename", "Disconnect"], MaxFiles=7)
     if tier == "quick":
-        mc = [("life-d4", dict(life, MaxDepth=4)), ("fault-d3", dict(fault, MaxDepth=3)), ("twoconn-d4", dict(two, MaxDepth=4))]
+        mc = [("life-d4", dict(life, MaxDepth=4)), ("fault-d3", dict(fault, MaxDepth=3)), ("twoconn-d4", dict(two, MaxDepth=4)),
+              ("rename-d5", dict(ren, MaxDepth=5))]
         gen = [("life-d3", dict(life, MaxDepth=3), "bfs"), ("fault-d3", dict(fault, MaxDepth=3), "bfs"),
-               ("twoconn-d3", dict(two, MaxDepth=3), "bfs")]
+               ("twoconn-d3", dict(two, MaxDepth=3), "bfs"), ("rename-d4", dict(ren, MaxDepth=4), "bfs")]
         cuts = "sample"
     else:
         mc = [("life-d5", dict(life, MaxDepth=5)), ("fault-d4", dict(fault, MaxDepth=4)), ("twoconn-d5", dict(two, MaxDepth=5))]
         gen = [("life-d4", dict(life, MaxDepth=4), "bfs"), ("fault-d4", dict(fault, MaxDepth=4), "bfs"),
-               ("twoconn-d4", dict(two, MaxDepth=4), "bfs")]
+               ("twoconn-d4", dict(two, MaxDepth=4), "bfs"), ("rename-d5", dict(ren, MaxDepth=5), "bfs")]
         cuts = "all"
     return session.run("C05", tier, seed, mc, gen, RULE, nontrivial, cuts=cuts)
 
